@@ -48,6 +48,26 @@ Theorem collect_safe : forall h rg minptr maxptr order tls stack,
 Proof. exact MarkSweepProofs.collect_safe_thm. Qed.
 Print Assumptions collect_safe.
 
+(* (5) the same at every collection point of an allocation history: the `nitems > mitems`
+   trigger inside alloc (the newborn's address is among the stack words: `extra`) or a forced
+   collection; the registry-side invariants (range_ok, order_ok) are re-established *)
+Theorem threshold_collect_safe : forall s e s1 extra,
+  collection_point s e = Some (s1, extra) -> inv s1 -> heap_ok s1 ->
+  exists s' fin, step gc_tls_recurses gc_mar_guarded s e = Ok (s', fin) /\ collection_safe s1 extra fin s' /\ inv s'.
+Proof. exact MarkSweepProofs.threshold_collect_safe_lemma. Qed.
+Print Assumptions threshold_collect_safe.
+
+(* every history of allocations, stores, root changes, explicit deletions and forced
+   collections, started from a state satisfying the registry invariants (e.g. the empty one):
+   as long as each alloc returns a fresh aligned address and the heap is well formed at each
+   collection point, no step fails and every collection in the history is safe *)
+Theorem history_collect_safe : forall es s, inv s -> hist_safe gc_tls_recurses gc_mar_guarded s es.
+Proof. exact MarkSweepProofs.history_collect_safe_lemma. Qed.
+Print Assumptions history_collect_safe.
+
+Example history_starts_somewhere : inv st0.
+Proof. exact MarkSweepProofs.inv_st0. Qed.
+
 (* non-vacuity of the hypotheses: a heap with a cycle through an Array of Ref, a shared Box, a
    Tuple leading through a raw object, a TLS root, a stack root and one unreachable object;
    exactly the unreachable one is freed *)
